@@ -3,6 +3,7 @@
 import json, os, glob
 HERE = os.path.dirname(os.path.dirname(os.path.abspath(__file__)))
 res = json.load(open(os.path.join(HERE, "seeded", "RESULTS-quick.json"))) if os.path.exists(os.path.join(HERE, "seeded", "RESULTS-quick.json")) else {}
+rest = json.load(open(os.path.join(HERE, "seeded", "RESULTS-thorough.json"))) if os.path.exists(os.path.join(HERE, "seeded", "RESULTS-thorough.json")) else {}
 rows = []
 for d in sorted(glob.glob(os.path.join(HERE, "seeded", "C*"))):
     name = os.path.basename(d)
@@ -10,8 +11,11 @@ for d in sorted(glob.glob(os.path.join(HERE, "seeded", "C*"))):
     note = " ".join(m["needs"].split())
     first = note.split(". ")[0][:160]
     r = res.get(name, {})
+    tonly = False
+    if not r.get("detected") and rest.get(name, {}).get("detected"):
+        r, tonly = rest[name], True
     caught = "; ".join("%s: %s" % (k, ", ".join(v["keys"][:2])) for k, v in r.get("checks", {}).items() if v["rc"] == 1) or "-"
-    rows.append("| %s | %s | %s | %s | %s |" % (name, m["property"], "yes" if r.get("detected") else ("no" if r else "?"), caught[:170], first))
+    rows.append("| %s | %s | %s | %s | %s |" % (name, m["property"], ("thorough tier only" if tonly else "yes") if r.get("detected") else ("no" if r else "?"), caught[:170], first))
 out = ["| change | property | caught (quick) | by check: first violation keys | what was changed |", "|---|---|---|---|---|"] + rows
 open(os.path.join(HERE, "seeded", "TABLE.md"), "w").write("\n".join(out) + "\n")
 nd = sum(1 for n, r in res.items() if r.get("detected") and os.path.isdir(os.path.join(HERE, "seeded", n)))
